@@ -24,6 +24,7 @@ mod fam;
 mod large;
 mod mid;
 mod oracle;
+mod refbdd;
 mod report;
 mod sem;
 mod src_adf;
